@@ -33,8 +33,8 @@ func refEncode(pl int, body []byte) []byte {
 	case plDelimiter, plDelimText:
 		return append(append([]byte(nil), body...), '$')
 	case plLengthField:
-		h := make([]byte, 2)
-		binary.BigEndian.PutUint16(h, uint16(len(body)))
+		h := make([]byte, 4)
+		binary.BigEndian.PutUint32(h, uint32(len(body)))
 		return append(h, body...)
 	case plVarint:
 		h := make([]byte, binary.MaxVarintLen64)
@@ -82,12 +82,13 @@ func runC09(e *Env) {
 	case plDelimText:
 		hs = append(hs, frame.DelimiterCodec(1<<20, "$", true), format.TextCodec())
 	case plLengthField:
-		hs = append(hs, frame.LengthFieldCodec(binary.BigEndian, 1<<20, 0, 2, 0, 2))
+		hs = append(hs, frame.LengthFieldCodec(binary.BigEndian, 1<<20, 0, 4, 0, 4))
 	case plVarint:
 		hs = append(hs, frame.VarintLengthFieldCodec(1<<20))
 	}
 	writers := 2 + e.P(3)
 	per := 1 + e.P(3)
+	big := e.P(8) == 7 && carrier != caReaderStream && carrier != caWriterToN && carrier != caReaderSmall
 	viaCtx := e.P(3) == 2
 	plName := plNames[pl]
 	if pl == plDelimiter {
@@ -108,6 +109,9 @@ func runC09(e *Env) {
 		for i := 0; i < per; i++ {
 			m := &c09Msg{ID: len(msgs), Writer: w}
 			size := msgSizes[e.P(len(msgSizes))]
+			if big && i == 0 {
+				size = 66000 + 1000*w // larger than the biggest pooled buffer class
+			}
 			if carrier == caReaderSmall && size > 1024 {
 				size = 1024 // beyond one streaming chunk the head needs several writes: that is the multi-read class
 			}
